@@ -7,7 +7,7 @@ package verifspec
 //@ func LemmaFixedElems
 //@   arith int
 //@   props C02, C03, C08
-//@   requires Fixed(t) > 0 && 0 <= n && n <= 0x7fffffff && 0 <= d && d <= 64
+//@   requires Fixed(t) > 0 && 0 <= n && n <= 0x7fffffff && -1 <= d && d <= 64
 //@   ensures n * Fixed(t) <= len(b) ==> ElemsLenD(b, t, n, d) == n * Fixed(t)
 //@   ensures n * Fixed(t) > len(b) ==> ElemsLenD(b, t, n, d) == -1
 //@   decreases n
@@ -15,7 +15,7 @@ package verifspec
 //@ func LemmaFixedPairs
 //@   arith int
 //@   props C02, C03, C08
-//@   requires Fixed(kt) > 0 && Fixed(vt) > 0 && 0 <= n && n <= 0x7fffffff && 0 <= d && d <= 64
+//@   requires Fixed(kt) > 0 && Fixed(vt) > 0 && 0 <= n && n <= 0x7fffffff && -1 <= d && d <= 64
 //@   ensures n * (Fixed(kt) + Fixed(vt)) <= len(b) ==> PairsLenD(b, kt, vt, n, d) == n * (Fixed(kt) + Fixed(vt))
 //@   ensures n * (Fixed(kt) + Fixed(vt)) > len(b) ==> PairsLenD(b, kt, vt, n, d) == -1
 //@   decreases n
